@@ -156,4 +156,38 @@ theorem top_slices_ok (x : Int) (h : (67000000 < x ∧ x < 67058539) ∨ (-67058
   · exact allFrom_spec 2000 (-67002538) top_neg_28 x h.1 (by omega)
   · exact allFrom_spec 538 (-67000538) top_neg_29 x h.1 (by omega)
 
+/-- the kernel's exact result, given only that `a2 * M` fits i64 -/
+theorem to_mont_coeff_of_a2 (m : Mode) (x : Int) (h1 : -67058539 < x) (h2 : x < 67058539)
+    (hb : -274609504447 ≤ a2of x ∧ a2of x ≤ 274609504447) :
+    to_mont_coeff m x = .ok (pr64s x) ∧ (pr64s x - x * 4294967296) % 8380417 = 0 ∧ -16760834 < pr64s x ∧ pr64s x < 16760834 := by
+  unfold a2of at hb
+  have hw := wrap64_id (x * 4294967296) (by omega) (by omega)
+  have e0 : x * 4294967296 / 8388608 = x * 512 := by omega
+  have e1 : x * 4294967296 - x * 512 * 8380417 = x * 4193792 := by omega
+  obtain ⟨d, hd⟩ : ∃ d, x * 4193792 / 8388608 = d := ⟨_, rfl⟩
+  rw [hd] at hb
+  obtain ⟨a2, ha2⟩ : ∃ a2, x * 4193792 - d * 8380417 = a2 := ⟨_, rfl⟩
+  rw [ha2] at hb
+  have hc : (a2 - x * 4294967296) % 8380417 = 0 := by omega
+  obtain ⟨q3, hq⟩ : ∃ q3, a2 * 33587228 / 281474976710656 = q3 := ⟨_, rfl⟩
+  have hq1 : 281474976710656 * q3 ≤ a2 * 33587228 := by omega
+  have hq2 : a2 * 33587228 < 281474976710656 * q3 + 281474976710656 := by omega
+  have hw2 := wrap32_id (a2 - q3 * 8380417) (by omega) (by omega)
+  refine ⟨?_, ?_⟩
+  · unfold to_mont_coeff partial_reduce64 pr64s
+    simp only [hw]
+    ksimp [e0, e1, hd, ha2, hq, hw2]
+  · unfold pr64s
+    simp only [e0, e1, hd, ha2, hq]
+    omega
+
+/-- **`partial_reduce64` on its whole documented domain** (caller's shape `x << 32`, |x| < 67 058 539), both build modes -/
+theorem to_mont_coeff_full (m : Mode) (x : Int) (h1 : -67058539 < x) (h2 : x < 67058539) :
+    to_mont_coeff m x = .ok (pr64s x) ∧ (pr64s x - x * 4294967296) % 8380417 = 0 ∧ -16760834 < pr64s x ∧ pr64s x < 16760834 := by
+  by_cases hmid : -67000000 ≤ x ∧ x ≤ 67000000
+  · exact ⟨to_mont_coeff_eq m x hmid.1 hmid.2, pr64s_spec x hmid.1 hmid.2⟩
+  · have ht := top_slices_ok x (by omega)
+    simp only [topOk, Bool.and_eq_true, decide_eq_true_eq] at ht
+    exact to_mont_coeff_of_a2 m x h1 h2 ht
+
 end Fips204.K
